@@ -84,6 +84,9 @@ CASES = [
      {"local.get_version": {"params": ["&str"], "ret": "Result<Option<u64>, Error>"}}),
     ("litfold", "fn f(x: u64) -> u64 { x << 8 * 7 }", ("expect", ["Rs.ushl 64 x 56"])),
     # ---- round 10 (b8): a diverging macro as the whole tail of a Result-returning function
+    ("newtype-opaque", "pub struct A<'a, W: Writer + 'a>(pub &'a mut W);\nimpl<'a, W: Writer + 'a> A<'a, W> { fn f(&mut self, buf: &[u8]) -> Result<usize, Error> { self.0.write_all(buf)?; Ok(buf.len()) } }",
+     ("expect", ["(self : W)", "ext_W_write_all self buf", "pure (self, buf.length)"]), ("A", "f"),
+     {"W.write_all": {"params": ["W", "&[u8]"], "ret": "Result<W, Error>", "monadic": True, "updates_receiver": True}}),
     ("resultpanic", "fn f(x: u64) -> Result<u64, ()> { unimplemented!() }", ("expect", ["(Rs.panic : Rs.M Nat)"])),
     # ---- round 9 (b1819): atomics, byte-string literals, literal-bound &str, let-bound try_into, receiver-updating externals
     ("atomic", "pub struct C { pub n: AtomicU32, pub k: AtomicUsize }\nimpl C { fn f(&self) -> u32 { self.n.fetch_add(1, Ordering::AcqRel) } }",
